@@ -188,9 +188,27 @@ def case_index(case):
             vals[f"sh.{i+1}"] = s
             irf["shift"].append(f"sh.{i+1}")
     kind = case.get("kind", "parallel")
-    labels, M, _, _ = B.calc_matrix(irf_model(irf, kind=kind), vals, "d1", axis, TIMES)
+    labels, M, mc, ds = B.calc_matrix(irf_model(irf, kind=kind), vals, "d1", axis, TIMES)
     vs = []
     index_dependent = case["shifts"] is not None or bool(disp)
+    # history: the filled dataset model that has been evaluated once is evaluated again on another axis of the same
+    # length, and again after its parameters moved; each must equal the evaluation of a freshly filled model
+    if len(axis) > 1:
+        other = [float(a) for a in axis[::-1]] if list(axis[::-1]) != list(axis) else [float(a) + 7.0 for a in axis]
+        _, again = mc.calculate_matrix(ds, np.asarray(other, dtype=float), np.asarray(TIMES, dtype=float))
+        _, fresh, _, _ = B.calc_matrix(irf_model(irf, kind=kind), vals, "d1", other, TIMES)
+        if not np.array_equal(np.asarray(again), fresh):
+            vs.append(V("second-evaluation-of-a-filled-model-on-another-axis-differs-from-fresh-evaluation",
+                        max_abs=float(np.abs(np.asarray(again) - fresh).max()) if np.shape(again) == fresh.shape else None))  # fmt: skip
+    moved = dict(vals)
+    for p in ds.irf.center if isinstance(ds.irf.center, list) else [ds.irf.center]:
+        moved[p.label] = p.value + 0.21
+        p.value = moved[p.label]
+    _, again = mc.calculate_matrix(ds, np.asarray(axis, dtype=float), np.asarray(TIMES, dtype=float))
+    _, fresh, _, _ = B.calc_matrix(irf_model(irf, kind=kind), moved, "d1", axis, TIMES)
+    if not np.array_equal(np.asarray(again), fresh):
+        vs.append(V("evaluation-after-parameters-moved-differs-from-fresh-evaluation",
+                    max_abs=float(np.abs(np.asarray(again) - fresh).max()) if np.shape(again) == fresh.shape else None))  # fmt: skip
     if index_dependent and M.ndim != 3:
         return core.ok(key=None, outcome="2d", violations=[V("index-dependent-irf-gives-index-independent-matrix", shape=list(M.shape))])
     for i, lam in enumerate(axis):
